@@ -123,7 +123,10 @@ class GetService(DPWSPortTypeBase):
         # version group, handle check and description must stem from the same mdib version
         with mdib.mdib_lock:
             dummy_response.set_mdib_version_group(mdib.mdib_version_group)
-            response = self._sdc_device.msg_factory.mk_reply_soap_message(request_data, dummy_response)
+            # the description nodes are built with the namespace map of the mdib, QName values in their text (e.g.
+            # pm:Arg) refer to prefixes of that map: the response has to declare them all
+            response = self._sdc_device.msg_factory.mk_reply_soap_message(request_data, dummy_response,
+                                                                          list(mdib.nsmapper.prefix_enum))
             # now add to payload_element
             response_node = response.p_msg.payload_element
             for handle in requested_handles:
